@@ -405,6 +405,7 @@ func (p *queueProcessor) enqueueIfSlotAvailable(req *Request) bool {
 
 	verifhook.Yield("queue.slot-checked", req.GetID())
 	p.requestsWatcher.AddRequest(req)
+	verifhook.Yield("queue.between-watch-and-enqueue", req.GetID())
 
 	p.logger.Trace().Str("requestID", req.GetID()).Msg("Slot available, enqueuing")
 	if err := p.queue.Enqueue(req.GetID(), req.GetPriority()); err != nil {
